@@ -121,6 +121,10 @@ def run(run, h):
             run.case(cc)
             run.check_monitor("channel_id_changes_with_any_single_input", c2 != base[0], cc)
         if rd == 0:
+            # the key's byte representation as the model lays it out (Abacus.pk_to_bytes_atoms), concretised on the curve
+            batch.add("r_pk_to_bytes %s" % coq_pk(M.pk),
+                      lambda r, base=base, case=case: run.check_corr("corr.C18.public_key_to_bytes", "".join(concretize_atoms(pts, r)) == base[1],
+                                                                     dict(case, model_atoms=len(r))))
             batch.add("r_channel_id %s %s %s %s %s" % (zlist(list(mr)), zlist(list(cr)), zlist(list(pkb)), zlist(list(ma)), zlist(list(ca))),
                       lambda r, base=base, case=case: run.check_corr("corr.C18.channel_id", bytes(r).hex() == base[0], dict(case, model=bytes(r).hex())))
         ctxb = rng.randbytes(rng.choice([0, 3, 200]))
